@@ -3,6 +3,7 @@
 package checks
 
 import (
+	"bytes"
 	"fmt"
 	"io"
 	"math/rand"
@@ -285,6 +286,62 @@ func C09(e *Env) {
 			judgeModelFail(e, res.Fail, reqs, res.FailAt, "net-", res.Fail.Feature, fmt.Sprintf("[sizes %v ps3=%v via network] %s", t.Sizes, t.PS3, res.Fail.Detail), map[string]any{"tree": t, "failed_request": reqAt(reqs, res.FailAt), "transcript": tailStr(res.Log, 8)})
 		}
 	})
+	// ---- trees whose image would exceed what 32-bit sector numbers can describe (sparse members of
+	// 2..8 TiB): refusing to create the image is fine; an image that is created must still be one byte
+	// string: non-negative size, whole sectors, at least as long as its members, the same bytes at
+	// the same offset whatever the read started at
+	for hi, sizes := range [][]int64{{2 << 40, 2 << 40}, {4 << 40}, {4<<40 - 198656}, {8<<40 + 100, 5000}, {3 << 40, 3 << 40, 3 << 40}, {3 << 40}} {
+		name := fmt.Sprintf("huge%d", hi)
+		root := filepath.Join(parent, name)
+		must(os.MkdirAll(root, 0o755))
+		var sum int64
+		okFS := true
+		for i, sz := range sizes {
+			f, err := os.Create(filepath.Join(root, fmt.Sprintf("m%d.bin", i)))
+			must(err)
+			if err := f.Truncate(sz); err != nil {
+				okFS = false // this file system cannot hold such a file
+			}
+			f.WriteAt(bytes.Repeat([]byte{byte('A' + i)}, 6144), 2048)
+			f.Close()
+			sum += sz
+		}
+		if !okFS {
+			run.Count("huge_trees_not_creatable_here", 1)
+			os.RemoveAll(root)
+			continue
+		}
+		run.Eval(1)
+		wit := map[string]any{"member_sizes": sizes}
+		v, _, err, perr := libOpenImage(parent, name, false, 0)
+		switch {
+		case perr != nil:
+			run.Violate("panic", "huge-tree:"+panicClass(perr), fmt.Sprintf("[members %v] NewVirtualISO panicked: %v", sizes, perr), wit)
+		case err != nil:
+			run.Sig("huge tree %d TiB: creation refused", sum>>40)
+		default:
+			st, _ := v.Stat()
+			size := st.Size()
+			run.Sig("huge tree %d TiB: image created", sum>>40)
+			if size < sum || size%2048 != 0 {
+				run.Violate("size", "huge-tree", fmt.Sprintf("[members %v, %d bytes in all] the image announces %d bytes", sizes, sum, size), wit)
+			} else {
+				// the same window read directly and as the tail of a longer read that starts earlier
+				for _, off := range []int64{200000, 235520, 247808, 260000, 300000} {
+					a := make([]byte, 4096)
+					b := make([]byte, 65536+4096)
+					na, _ := v.ReadAt(a, off)
+					nb, _ := v.ReadAt(b, off-65536)
+					if na == 4096 && nb == len(b) && !bytes.Equal(a, b[65536:]) {
+						run.Violate("wrong-bytes", "huge-tree", fmt.Sprintf("[members %v] ReadAt(4096,%d) differs from the same range inside ReadAt(%d,%d)", sizes, off, len(b), off-65536), wit)
+						break
+					}
+				}
+			}
+			v.Close()
+		}
+		os.RemoveAll(root)
+	}
 	CrashCheck(e, p, "c09 worker", nil)
 }
 
